@@ -155,6 +155,16 @@ func BuildMethodCall(codeFunc *CodeFunction, item ast.Stmt, fields []CodeField, 
 }
 
 func BuildLocalVars(it *ast.AssignStmt, codeFunc *CodeFunction, imports []CodeImport) []CodeProperty {
+	// the right-hand expressions are looked at once: their calls belong to the statement, not to each name on the left
+	type rhsInfo struct {
+		typ, name, kind string
+	}
+	var rhs []rhsInfo
+	for _, expr := range it.Rhs {
+		typ, exprName, kind := BuildExpr(expr)
+		rhs = append(rhs, rhsInfo{typ, exprName, kind})
+	}
+
 	var vars []CodeProperty
 	for _, lh := range it.Lhs {
 		var left string
@@ -163,26 +173,27 @@ func BuildLocalVars(it *ast.AssignStmt, codeFunc *CodeFunction, imports []CodeIm
 			left = lhx.Name
 		}
 
-		for _, expr := range it.Rhs {
-			typ, exprName, kind := BuildExpr(expr)
+		for _, r := range rhs {
 			property := CodeProperty{
 				TypeValue: left,
-				TypeType:  kind,
+				TypeType:  r.kind,
 			}
 
 			vars = append(vars, property)
+		}
+	}
 
-			if typ == "call" {
-				packageName := getPackageName(exprName, "", imports)
-				if packageName != "" {
-					call := CodeCall{
-						Package:  packageName,
-						Type:     "",
-						NodeName: exprName,
-					}
-
-					codeFunc.FunctionCalls = append(codeFunc.FunctionCalls, call)
+	for _, r := range rhs {
+		if r.typ == "call" {
+			packageName := getPackageName(r.name, "", imports)
+			if packageName != "" {
+				call := CodeCall{
+					Package:  packageName,
+					Type:     "",
+					NodeName: r.name,
 				}
+
+				codeFunc.FunctionCalls = append(codeFunc.FunctionCalls, call)
 			}
 		}
 	}
